@@ -275,10 +275,13 @@ EXTRA = {'C01': 'Each configuration additionally runs with failing appenders (no
         'and the error handler is called once per failed delivery (Reported). Strict and lossy builds alternate; a '
         'third of the builds give the root its level afterwards through Config::root_mut(). Scale: 255 .. 65537 '
         'configured sibling loggers. Declarations reach the builders one at a time, in bulk, mixed, or through bulk '
-        'calls with one item.',
+        'calls with one item. A second instance (MC_Routing_long) has a ten-character name of one component next to '
+        'names of two and three components, with targets up to three components below them.',
  'C02': ' Every other record goes the way the macro goes but carries the name of a configured logger as module path '
         "and file. The configuration pool spells names with '-' and '_' (distinct loggers, both spellings as "
-        'targets).',
+        'targets). Every other reconfiguration of a history lands inside a log call of the same thread (at the '
+        "call's first load of the shared state): the record in flight is delivered as one of the two configurations "
+        'says.',
  'C03': 'Sinks are Append implementors and log::Log implementors attached through the blanket adapter (whose own '
         'enabled() says no); builder styles filter()/filters() are mixed. The real ThresholdFilter takes Neutral / '
         'Reject positions inside scripted chains; a child process counts the calls of the handler given to '
@@ -289,7 +292,9 @@ EXTRA = {'C01': 'Each configuration additionally runs with failing appenders (no
  'C04': ' Truncate-mode scenarios get a successor appender as well. Every fourth scenario hands over to a successor '
         'appender opened on the same path while the first was alive; one long lifetime (180 records) per batch. '
         'FileAppender.tla has EncodeFail and Close: the traces script encoder failures (also as the first record '
-        'after build) and end with the drop of the appender.',
+        "after build) and end with the drop of the appender. The traced appender's encoder appends audit lines to a "
+        'second file appender from inside its encode call; that file must hold every acknowledged line once, in '
+        'order.',
  'C05': 'The replay materialises every behaviour five times: 10-byte units with DeleteRoller, 400-byte units with a '
         'two-chunk encoder (straddling the 1 KiB BufWriter), 16-byte units with gzip archives and an appender built '
         'from a configuration value, 12-byte units with the index in a directory component of the archive pattern, '
@@ -329,7 +334,9 @@ EXTRA = {'C01': 'Each configuration additionally runs with failing appenders (no
         'fallback). Rolling.tla also has encoder failures (EncFail: part of a record written, then Err) with the '
         'BufWriter capacity as a parameter. Instances with archives found at first build (PreArch). With a .gz '
         'pattern (constant Gz) the final step is FsOps!Compress and a name that cannot be written (a link to '
-        '/dev/full) is an obstacle kind; long behaviours are sampled with TLC -simulate.',
+        '/dev/full) is an obstacle kind; long behaviours are sampled with TLC -simulate. Obstacle nodir: the '
+        'directory of the archives is a symbolic link whose target is moved away and back; the rotation fails at its '
+        'first step, nothing moves, it recovers afterwards.',
  'C09': "DateZone.tla adds the environment's local zone as state: histories in which the zone changes between the "
         'construction of an encoder and its use and between two uses (4 POSIX zones, 4 date kinds) are replayed on '
         'fresh threads and, for a few, on a single thread. Fragments.tla (the message is the concatenation of the '
@@ -358,14 +365,16 @@ EXTRA = {'C01': 'Each configuration additionally runs with failing appenders (no
  'C13': 'The declarations reach the builders one at a time, in bulk and in mixtures of both (appender()/appenders(), '
         'logger()/loggers(), and the same for references). Every other case renames the appender namespace onto the '
         'strings logger names are made of. Scale: 21 .. 300 loggers with one name declared three times (first '
-        'declaration wins, two duplicates reported).',
+        'declaration wins, two duplicates reported). Declarations carry a level and an additive flag that depend on '
+        'their position; what a lossy build keeps is compared with what was declared.',
  'C14': 'Registry.tla (insert / clone / lookup of deserializers per trait and kind, 192k histories) is replayed on '
         'log4rs::config::Deserializers in the same run. Wrong-typed kinds at every level; a zero limit as a bare '
         'integer; ConfigFormat.tla (which reader a file name gets) runs in the same check. The surviving file / '
         'rolling appender must print (Debug) exactly like its programmatic twin; the size limit is spelled '
         'differently in each rendering. Refresh rates below one second, compared on the raw document and on what a '
         "reloader adopts after reading it. A time trigger's two-hour interval is spelled differently in each "
-        'rendering (2 HOURS, 2 hourS, 7200, 2 Hours).',
+        'rendering (2 HOURS, 2 hourS, 7200, 2 Hours). Reference lists include a name given twice in a row (two '
+        'deliveries per record).',
  'C15': 'The refresh thread itself is covered impl->spec: scripted lifetimes of the real init_file thread (hook '
         'reloader.sleep) are validated as traces against Reloader.tla (Trace_Reloader.tla): every sleep lasts the '
         'rate of the last applied file. A directed scenario parks a logging thread inside Logger::enabled (hook '
@@ -374,10 +383,13 @@ EXTRA = {'C01': 'Each configuration additionally runs with failing appenders (no
         'histories are sampled with TLC -simulate; one long lifetime of reconfigurations per batch of swap traces. '
         "Versions of the live documents differ in a child logger's level; the apply event carries log::max_level() "
         'and must equal MaxLevel of the applied version. One reload of the live scenarios takes longer than every '
-        'refresh rate in use (45 ms): later edits must still be applied.',
+        'refresh rate in use (45 ms): later edits must still be applied. In the YAML rendering, versions v and v + 2 '
+        'differ in one line break at the end of the file (part of a keep-chomped block scalar).',
  'C16': 'Every other history builds the whole appender (compound policy, trigger kind `time`) from a configuration '
         'value. Random-delay bounds up to u64::MAX. Counts of hours / minutes / seconds around 2^31 / 2^32 seconds '
-        'and at the 1000-year maxima (NextTimeBig); lifetimes of 300 arrivals sampled with TLC -simulate.',
+        'and at the 1000-year maxima (NextTimeBig); lifetimes of 300 arrivals sampled with TLC -simulate. Every DST '
+        'zone gets a walk of arrivals through its repeated hour (six intervals, with and without modulation): each '
+        'firing is compared with the scheduled instant read just before.',
  'C17': 'The replay materialises every behaviour five times: 10-byte units with DeleteRoller, 400-byte units with a '
         'two-chunk encoder (straddling the 1 KiB BufWriter), 16-byte units with gzip archives and an appender built '
         'from a configuration value, 12-byte units with the index in a directory component of the archive pattern, '
@@ -397,17 +409,19 @@ EXTRA = {'C01': 'Each configuration additionally runs with failing appenders (no
         'of real child processes on pipes and terminals are validated as a trace (Trace_ConsoleStream.tla); builder '
         'setters are given in both orders. The public ConsoleWriter used by four threads without lock() is validated '
         "against the same specification with Locked = FALSE: pieces alternate freely, every call's bytes arrive "
-        'whole, escape sequences included.',
+        'whole, escape sequences included. In one pattern variant one append fails with a broken pipe, the stream is '
+        're-pointed at a file, and the same appender must write there.',
  'C19': 'A fifth site rolls three times through a window of two with the index before the reference (an expansion '
         "containing '/' puts the index into a directory component). The environment holds a variable with an "
         'ill-formed name. A sixth site uses a relative path (reference at byte 0) in a scratch working directory. A '
         "seventh site puts the roller's index where the input has a digit (window of three; a variable set for one "
-        'index only). The environment holds bystander variables whose value or name is not UTF-8.',
+        'index only). The environment holds bystander variables whose value or name is not UTF-8. A variable whose '
+        'name ends in a non-ASCII digit (U+0663).',
  'C20': 'Junk units include long ones (7..257 letters, a 2-, 3- or 4-byte letter at every place). Junk units with '
         'doubled plural endings and one letter too many. Every interval literal also builds the `time` trigger '
         '(accepted exactly between one unit and 1000 years, never a panic); junk units up to 257 letters. Every '
         'literal also travels through TOML and as a signed configuration value. Junk units include valid units with '
-        'one letter missing (ib, ki, econd, ...).'}
+        'one letter missing (ib, ki, econd, ...). Numbers with twenty leading zeros.'}
 
 NOT_YET = "check not built yet in this round (planned, see DESIGN.md section 7)"
 
